@@ -6,7 +6,7 @@ import numpy as np
 from vlib import core, dom, rescorr
 
 ID = "C01"
-PROPS = ["C01_maxprinciple.v", "C01_matrix.v"]
+PROPS = ["C01_maxprinciple.v", "C01_matrix.v", "C04_step_system.v"]
 GEN = ["reservoir"]
 TOL = 1e-9
 
